@@ -74,6 +74,9 @@ def generate(rng, tier, idx):
                 rng.shuffle(ents)
             if rng.random() < 0.3:
                 ents.append({'tag': 'DATA', 'path': 'somefile', 'size': 0, 'sums': {}})
+            if rng.random() < 0.25:
+                # a TIMESTAMP at any level (a nested repository, a sub-Manifest once written with --timestamp)
+                ents.insert(rng.randrange(len(ents) + 1), {'tag': 'TIMESTAMP', 'ts': '2020-01-01T00:00:00Z'})
             manifests.append({'p': (d + '/' if d else '') + nm, 'entries': ents})
     mounts = {}
     r = rng.random()
